@@ -222,6 +222,36 @@ IndexDerived == \A i \in 1..Len(disk) :
    (disk[i].ix.present /\ NonDecreasingTimes(pub)) => disk[i].ix.ts = DeriveTs(disk[i].recs, 0)
 IndexLen == \A i \in 1..Len(disk) : disk[i].ix.present => Len(disk[i].ix.ts) = Len(disk[i].recs)
 NextMonotone == [][Len(pub') >= Len(pub)]_vars
+\* C11 / C17 for arbitrary time orders: an index file's timestamps are the running maximum of the segment's
+\* message times from SOME carried start (never an arbitrary sequence)
+IxRunInv == \A i \in 1..Len(disk) : disk[i].ix.present =>
+               \E prev \in {0} \cup TimeSet : disk[i].ix.ts = DeriveTs(disk[i].recs, prev)
+
+\* ---- C17: the version rules, judged on every step (the same predicate the trace specification applies
+\* to the projected layouts of the real directory)
+LayOf(d) == [i \in 1..Len(d) |-> [base |-> d[i].base, ver |-> d[i].ver,
+                                  offs |-> [j \in 1..Len(d[i].recs) |-> d[i].recs[j].off]]]
+VersionStep ==
+  hist' # hist =>
+    LET ev == LastOf(hist') b == LayOf(disk) a == LayOf(disk') IN
+    CASE ev.op = "migrate" -> VersionsOK(b, a, "migrate", 0, FALSE, FALSE, ev.v)
+      [] ev.op = "open" -> (h'.mode = "rw" => VersionsOK(b, a, "open", ev.o.newver, ev.o.keep, ev.o.eager, 0))
+      [] ev.op = "publish" -> VersionsOK(b, a, "publish", h.o.newver, h.o.keep, FALSE, 0)
+      [] ev.op = "delete" -> VersionsOK(b, a, "delete", h.o.newver, h.o.keep, FALSE, 0)
+      [] OTHER -> TRUE
+VersionRules == [][VersionStep]_vars
+\* nothing but the version (and the index files) changes in a migration, and twice is the same as once
+MigrateStep ==
+  (hist' # hist /\ LastOf(hist').op = "migrate") =>
+     LET v == LastOf(hist').v IN
+     /\ Len(disk') = Len(disk)
+     /\ \A i \in 1..Len(disk) : disk'[i].base = disk[i].base /\ disk'[i].recs = disk[i].recs
+     /\ [i \in 1..Len(disk') |-> MigrateSeg(disk'[i], v)] = disk'
+MigrateRules == [][MigrateStep]_vars
+\* read-only handles and failed opens never change a log file or the message content of the directory
+ReadOnlyStep == (h.mode = "ro" \/ (hist' # hist /\ LastOf(hist').op = "open" /\ h'.mode # "rw")) =>
+                   LayOf(disk') = LayOf(disk)
+ReadOnlyRules == [][ReadOnlyStep]_vars
 
 -----------------------------------------------------------------------------
 \* ---- queries, transcribed from log.go / log_reader.go / pkg/index / pkg/segment
@@ -331,8 +361,9 @@ GetByTimeFrom(i, ts) ==
 ImplGetByTime(ts) == IF ~TimeIndex THEN [err |-> "NoIndex"] ELSE GetByTimeFrom(RN, ts)
 
 \* Stat: per segment the log file size plus the index file size, message count from the index file
+\* (a missing index file counts 0 bytes and its messages are counted from the log: segment.Stat)
 ImplStat == [err |-> "", segments |-> N, messages |-> Len(Flat),
-             size |-> FoldLeft(LAMBDA acc, s : acc + LogSize(s) + IdxHeader(IF s.ix.present THEN s.ix.ver ELSE h.o.newver) + ISize * Len(s.recs), 0, disk)]
+             size |-> FoldLeft(LAMBDA acc, s : acc + LogSize(s) + IdxSize(s), 0, disk)]
 
 -----------------------------------------------------------------------------
 \* ---- the property-level predicates as invariants over the implementation-shaped queries
@@ -357,6 +388,8 @@ Iterate(off, max, fuel) ==
   ELSE LET rest == Iterate(r.next, max, fuel - 1) IN [msgs |-> r.msgs \o rest.msgs, end |-> rest.end]
 ScanInv == IsOpen => \A max \in {1, 2, MaxOff + 1} :
               LET it == Iterate(OffsetOldest, max, 2 * MaxOff + 4) IN it.msgs = Live /\ it.end = ANext
+\* C13: Stat = the live message count and the bytes of all segment files
+StatInv == IsOpen => StatOK(Live, Len(disk), FoldLeft(LAMBDA acc, s : acc + LogSize(s) + IdxSize(s), 0, disk), ImplStat)
 \* Delete, judged on the enabled transitions
 DeleteInv == IsRW => \A S \in DelSets :
                 LET r == DeleteResult(S) IN
